@@ -2,11 +2,13 @@ package checks
 
 import (
 	"fmt"
+	"regexp"
 	"strings"
 	"time"
 
 	"pmc/internal/comp"
 	"pmc/internal/harness"
+	"pmc/internal/model"
 )
 
 // C20 — ill-formed control flow and name clashes are rejected at the offending line.
@@ -261,13 +263,54 @@ func runC20(tier string) int {
 	}
 	r.Set("deep_chain_max_depth", maxD)
 	c20TopLevel(r)
+	c20LabelPlacements(r)
 	r.Set("max_chain_depth", maxDepth)
 	r.Set("chains", len(chains))
 	r.Set("injections", len(c20Injs))
 	r.Assume("one statement per line, so the reported start line identifies the offending construct",
 		"offending construct: the break / continue, the second case with the same value, the second default, the second const, the user text / movement statement, the label")
 	return r.Finish(r.Get("evaluations"), r.Get("nontrivial"),
-		"every nesting chain of depth <= d over {if, else, elif, while, infinite while, do...while, switch case, default, poryswitch brace / colon case} under 3 roots (script, inline map script, table inline script) x 54 injections, plus chains of every depth up to the deep-chain bound in the coverage (each wrapper kind repeated, and all kinds rotating) (break / continue outside their scopes incl. after every closed loop / switch / if that contains another loop or switch, continue not last, duplicate case value incl. via a constant and multi-token, second default) + redefined constants, text / movement names equal to generated ones, script labels equal to every generated label of the renamed program and to text labels; non-trivial = the program is ill-formed (an error is required)")
+		"every nesting chain of depth <= d over {if, else, elif, while, infinite while, do...while, switch case, default, poryswitch brace / colon case} under 3 roots (script, inline map script, table inline script) x 54 injections, plus chains of every depth up to the deep-chain bound in the coverage (each wrapper kind repeated, and all kinds rotating) (break / continue outside their scopes incl. after every closed loop / switch / if that contains another loop or switch, continue not last, duplicate case value incl. via a constant and multi-token, second default) + redefined constants, text / movement names equal to generated ones, script labels equal to every generated label of the renamed program and to text labels, the former also for every placement of the label (directly and inside every kind of block, in live code and after end / return / break / goto / an infinite loop); non-trivial = the program is ill-formed (an error is required)")
+}
+
+// c20LabelPlacements: the label clash clause over every placement of a label: the dead-label programs of C04 put a
+// label (and gotos to it) directly and inside every kind of block, after end / return / break / goto / an infinite
+// loop and in shared switch bodies. The label is renamed to every generated label of the same program in turn.
+func c20LabelPlacements(r *harness.Run) {
+	progs := deadLabelPrograms()
+	done := r.Parallel(uint64(len(progs)), func(w int, pi uint64) {
+		base := model.Print([]*model.Script{progs[pi]})
+		rename := func(to string) string {
+			return regexp.MustCompile(`\bL1\b`).ReplaceAllString(base, to)
+		}
+		for _, opt := range []bool{true, false} {
+			renamed := comp.Compile(rename("Renamed"), comp.Opts{Optimize: opt})
+			if renamed.Err != nil || renamed.Panic != "" {
+				continue
+			}
+			for _, l := range asmLines(renamed.Out) {
+				if !l.isLabel || !strings.HasPrefix(l.name, "S_") {
+					continue
+				}
+				src := rename(l.name)
+				labelLine := 0
+				for i, line := range strings.Split(src, "\n") {
+					if strings.TrimSpace(line) == l.name+":" {
+						labelLine = i + 1
+					}
+				}
+				res := comp.Compile(src, comp.Opts{Optimize: opt})
+				r.Add("evaluations", 1)
+				r.Add("nontrivial", 1)
+				r.Add("ill_formed_programs", 1)
+				r.Add("label_placement_clash_programs", 1)
+				c20Judge(r, "label-equals-generated:placement", src, labelLine, res, opt, nil)
+			}
+		}
+	})
+	if !done {
+		r.NotExhaustive("label placements not completed")
+	}
 }
 
 func c20Judge(r *harness.Run, what, src string, errLine int, res comp.Result, opt bool, sw map[string]string) {
